@@ -38,6 +38,7 @@ def instances(tier):
         for k in ("ac", "zone", "timer", "error", "error_silent", "version"):
             out.append({"kind": k, "gen": g})
         out.append({"kind": "unsub_during_handler", "gen": g})
+        out.append({"kind": "multi_entity", "gen": g})      # one frame changes every zone / both ACs; a failing subscriber somewhere
         if tier == "thorough":
             # the other entities as target: second AC, every other zone (owned by either AC)
             for k in ("ac", "timer", "error", "error_silent"):
@@ -72,6 +73,71 @@ class Rec:
 
 def _b(x):
     return bool(x) if isinstance(x, SymBool) else x
+
+
+def _multi_entity(ctx, p):
+    """One status frame changes all four zones, a second one both ACs. A subscriber that raises sits (solver-chosen) nowhere,
+    on the first zone / AC, or on the socket as a second message subscriber next to the API object. Every changed entity's
+    subscribers are called once with their own identifier, each zone change reaches its owner's general subscribers, and
+    the model shows the new values for every entity - a failing subscriber takes nothing away from the others."""
+    g = Gen(p["gen"])
+    inst = Installation.simple(g.n, n_acs=2, zones_per_ac=2)
+    where = ("none", "entity", "socket")[ctx.choice("raiser_at", 3)]
+    log = []
+    with ApiRig(ctx, g, inst) as rig:
+        con = rig.console
+        rig.start()
+        rig.run(1.0)
+        ctx.check(rig.init_result is True, "raiser_does_not_starve", detail="handshake failed")
+        zones = [rig.zone(n) for n in range(4)]
+        acs = [rig.ac(0), rig.ac(1)]
+        if where == "entity":
+            zones[0].subscribe(Rec("raiser", log, raises=True))
+            acs[0].subscribe(Rec("raiser", log, raises=True))
+        elif where == "socket":
+            async def failing(header, message):
+                raise RuntimeError("message subscriber failure")
+            rig.at._socket.subscribe_on_message_received(failing)
+        for n, z in enumerate(zones):
+            z.subscribe(Rec(f"zone{n}", log))
+        for n, a in enumerate(acs):
+            a.subscribe(Rec(f"ac{n}", log))
+            a.subscribe_ac_state(Rec(f"acstate{n}", log))
+        detail = {"raiser_at": where}
+        # ---- every zone's damper opening changes --------------------------------------------------------------
+        for n in range(4):
+            inst.zone_status[n] = (r4.build_group_status(n, 1, 0, 15 + 5 * n, 0, 0, 22, 0, 0, 0) if g.n == 4
+                                   else r5.build_zone_status(n, 1, 0, 15 + 5 * n, 0xFF, 0, 0x7FF, 0, 0))
+        n0 = len(log)
+        con.push(con.zone_status_frame(pid=0x62))
+        rig.run(rig.loop.vt_now() + 1.0)
+        calls = [c for c in log[n0:] if c[0] != "raiser"]
+        ctx.observe("zone_calls", len(calls))
+        for n in range(4):
+            ctx.check(calls.count((f"zone{n}", n)) == 1, "raiser_does_not_starve", detail=dict(detail, zone=n, calls=calls))
+            ctx.check(zones[n].current_damper_percentage == 15 + 5 * n, "raiser_does_not_starve",
+                      detail=dict(detail, zone=n, damper=str(zones[n].current_damper_percentage), why="model not updated"))
+        for a in range(2):
+            ctx.check(calls.count((f"ac{a}", a)) == 2 and calls.count((f"acstate{a}", a)) == 0, "zone_reaches_ac_general_only", detail=dict(detail, ac=a, calls=calls))
+        # ---- both ACs' set-points change ------------------------------------------------------------------------
+        for a in range(2):
+            inst.ac_status[a] = (r4.build_ac_status(a, 1, 1, 3, 0, 0, 19 + a, 600, 0) if g.n == 4 else r5.build_ac_status(a, 1, 1, 3, 90 + 10 * a, 0, 0, 0, 0, 600, 0))
+        n0 = len(log)
+        con.push(con.ac_status_frame(pid=0x63))
+        rig.run(rig.loop.vt_now() + 1.0)
+        calls = [c for c in log[n0:] if c[0] != "raiser"]
+        for a in range(2):
+            ctx.check(calls.count((f"ac{a}", a)) == 1 and calls.count((f"acstate{a}", a)) == 1, "raiser_does_not_starve", detail=dict(detail, ac=a, calls=calls))
+            ctx.check(acs[a].target_temperature == 19 + a, "raiser_does_not_starve", detail=dict(detail, ac=a, target=str(acs[a].target_temperature)))
+        # ---- and the next frame still notifies -------------------------------------------------------------------
+        inst.zone_status[3] = (r4.build_group_status(3, 1, 0, 95, 0, 0, 22, 0, 0, 0) if g.n == 4 else r5.build_zone_status(3, 1, 0, 95, 0xFF, 0, 0x7FF, 0, 0))
+        n0 = len(log)
+        con.push(con.zone_status_frame(pid=0x64, only=[3]))
+        rig.run(rig.loop.vt_now() + 1.0)
+        ctx.check(log[n0:].count(("zone3", 3)) == 1, "later_frames_still_notify", detail=dict(detail, calls=log[n0:]))
+        ctx.check(len(rig.net.conns) == 1, "later_frames_still_notify", detail="connection was reset")
+    for lab in expect_labels("quick"):
+        ctx.reach(lab)
 
 
 def _unsub_during_handler(ctx, p):
@@ -129,6 +195,8 @@ def _unsub_during_handler(ctx, p):
 def run(ctx, p):
     if p["kind"] == "unsub_during_handler":
         return _unsub_during_handler(ctx, p)
+    if p["kind"] == "multi_entity":
+        return _multi_entity(ctx, p)
     g = Gen(p["gen"])
     kind = p["kind"]
     inst = Installation.simple(g.n, n_acs=2, zones_per_ac=2)
